@@ -21,6 +21,7 @@ type Val struct {
 	Nil   bool     // untyped nil
 	Tuple []Val
 	Obj   bool // T is the address of a by-value struct/array living in the heap (auto-deref lvalue)
+	Cell  bool // T is the address of an address-taken local variable: the name denotes its current content
 }
 
 type specEnv struct {
@@ -186,6 +187,8 @@ func (e *specEnv) typeOfExpr(x ast.Expr) types.Type {
 				}
 			}
 		}
+	case *ast.MapType:
+		return types.NewMap(e.typeOfExpr(x.Key), e.typeOfExpr(x.Value))
 	case *ast.ParenExpr:
 		return e.typeOfExpr(x.X)
 	case *ast.InterfaceType:
@@ -350,6 +353,10 @@ func (e *specEnv) expr(x ast.Expr, sg *SGo) Val {
 			return e.eval(sub)
 		}
 		if v, ok := e.names[x.Name]; ok {
+			if v.Cell {
+				pt := v.Ty.Underlying().(*types.Pointer)
+				return tr.loadPlace(tr.placeOfPtr(v.T, pt.Elem()), e.heap)
+			}
 			return v
 		}
 		switch x.Name {
